@@ -21,9 +21,9 @@ META = {
                    "unversioned top-level items are handed to unlink/rmtree, versioned paths and their ancestors keep "
                    "their kind, every deleted path is a real entry reached without traversing a symlink, dry run / "
                    "declined prompt / no category are no-ops, a directory with a control directory at its top is kept, "
-                   "git trees keep everything below a directory holding a .git entry. Machine-checked refutations: "
-                   "nested branch at depth >= 2 (bzr), foreign .git in a versioned directory (bzr), nested .bzr in a git "
-                   "tree. Model tied to the code by running clean_tree on real trees (file system before/after)."),
+                   "git trees keep everything below a directory holding a .git entry, nothing whose basename is a control "
+                   "filename (.bzr/.git) is ever deletable (b06b6de). Machine-checked refutations: nested branch at "
+                   "depth >= 2 (bzr), nested .bzr in a git tree. Model tied to the code by running clean_tree on real trees (file system before/after)."),
     "level_note": ("Trusted: Coq kernel, vm_compute, correspondence of the hand model (sampled layouts), the ignore "
                    "oracle is an input (real is_ignored answers are fed in), permission errors not modelled."),
     "design_ref": "DESIGN.md §5 C46",
@@ -34,7 +34,8 @@ META = {
                     "directories have pairwise distinct entry names (wf_node)",
                     "is_ignored is an oracle (its answers on the real tree are inputs of the model)",
                     "no permission errors, no concurrent modification, POSIX symlinks, no fifo/socket entries",
-                    "nested control directories are .bzr with a valid branch-format file or any .git entry"],
+                    "nested control directories are .bzr with a valid branch-format file or any .git entry",
+                    "registered control dir formats are bzr and git (control filenames .bzr and .git)"],
     "rule": ("hand-written layouts x all 16 flag combinations x bzr/git, then seeded random layouts over <= 8 names "
              "(depth <= 3, symlinks in/out/dangling, .bzr/.git at depth 0-3, ignore patterns, detritus names) with "
              "random options; non-trivial = something is deleted or a nested control dir is present"),
@@ -88,8 +89,12 @@ def corpus():
     out = []
     # finding witnesses
     out.append(_inp("bzr", [("u", "d"), ("u/n", "d")] + _bzrctl("u/n") + [("u/n/work", "f")], [], [], (1, 0, 0)))
+    # witness of C46-foreign-control-dir (fixed by b06b6de): must pass the oracle now
     out.append(_inp("bzr", [(".git", "d"), (".git/HEAD", "f"), ("f", "f")], ["f"], [], (1, 0, 0)))
     out.append(_inp("git", [("n", "d")] + _bzrctl("n") + [("n/work", "f")], [], [], (1, 0, 0)))
+    # the control-filename skip: .git in a versioned subdirectory / all flags; plain entries named .bzr in a git tree
+    out.append(_inp("bzr", [("v", "d"), ("v/.git", "d"), ("v/.git/HEAD", "f"), ("v/k", "f")], ["v"], [], (1, 1, 1)))
+    out.append(_inp("git", [("u", "d"), ("u/.bzr", "f"), ("u/k", "f"), ("w", "d"), ("w/.bzr", "lx")], [], [], (1, 1, 1)))
     return out
 
 
